@@ -169,13 +169,38 @@ def c08_violations(sess, cands, tr):
                     o, h = pc, max(pc, h)
             path = path_points(o, h, l, c)
             pos = (0, path[0])
+            ok = True
             for (k, p) in fills:
                 nxt = advance(path, pos, p)
                 if nxt is None:
                     out.append(('fills-not-on-one-path', k, {'minute': j, 'candle[o,h,l,c]': [o, h, l, c],
                                                              'fills': fills, 'order': orders.get(k)}))
+                    ok = False
                     break
                 pos = nxt
+            if not ok:
+                continue
+            # no order resting since before the minute may be passed by: if the path reaches its price strictly before
+            # the position of the last fill, it must have been filled (or cancelled) by then
+
+            def dist(ps):
+                seg, cur = ps
+                return sum(abs(path[i + 1] - path[i]) for i in range(seg)) + abs(cur - path[seg])
+            t_start = t0 + j * M
+            filled_here = {k for (k, _) in fills}
+            for k, od in orders.items():
+                if od['sym'] != sym or od['type'] == 'MARKET' or k in filled_here:
+                    continue
+                if od['submitted'] is None or int(od['submitted']) > t_start:
+                    continue                      # not resting at the start of this minute
+                end = od['filled'] if od['filled'] is not None else od['cancelled']
+                if end is not None and int(end) <= t_start + M:
+                    continue                      # gone before / during this minute
+                reach = advance(path, (0, path[0]), float(od['price']))
+                if reach is not None and dist(reach) < dist(pos) - 1e-12:
+                    out.append(('path-passed-a-resting-order', k, {'minute': j, 'candle[o,h,l,c]': [o, h, l, c], 'fills': fills,
+                                                                   'order': od}))
+                    break
     return out
 
 
@@ -192,8 +217,26 @@ def c01_compare(sess, cands, cut, rng):
         new = bt.make_candles(rows, start=int(arr[0][0]) + cut * M)
         import numpy as np
         alt[s] = np.concatenate((arr[:cut], new), axis=0) if cut > 0 else new
-    ev1, tr1, err1 = engcorr.run_real(sess, cands)
-    ev2, tr2, err2 = engcorr.run_real(sess, alt)
+    future = []
+
+    def no_future(strategy, hook, order=None):
+        """whatever hook runs, the candle store holds no candle (of any symbol or timeframe) that starts at or after now"""
+        from jesse.store import store
+        if future:
+            return
+        # the fast simulator is only claimed free of look-ahead at trading-candle boundaries (its chunks are stored symbol
+        # by symbol, so a hook fired by a mid-chunk fill may see the rest of another symbol's chunk): strategy steps only
+        if sess['fast'] and hook not in ('before', 'after'):
+            return
+        now = store.app.time
+        for key, arr in store.candles.storage.items():
+            if len(arr) and float(arr[-1][0]) >= now:
+                future.append({'hook': hook, 'strategy_index': strategy.index, 'now': int(now), 'series': key,
+                               'last_stored_candle_starts_at': int(arr[-1][0])})
+                return
+    ev1, tr1, err1 = engcorr.run_real(sess, cands, extra_observer=no_future)
+    ev2, tr2, err2 = engcorr.run_real(sess, alt, extra_observer=no_future)
+    tr1.future_candles = future
     return ev1, ev2, tr1, tr2
 
 
